@@ -79,7 +79,10 @@ type (
 	}
 	pcapOverIPEndpoint struct {
 		PcapOverIPEndpointInfo
-		cancel func()
+		// infoLock guards the counters in PcapOverIPEndpointInfo: the endpoint's reader goroutine
+		// updates them, the service loop copies them
+		infoLock sync.Mutex
+		cancel   func()
 	}
 	pcapOverIPPacket struct {
 		linkType layers.LinkType
@@ -2279,7 +2282,9 @@ func (mgr *Manager) newPcapOverIPEndpoint(ctx context.Context, address string) *
 				sl := handle.SnapLen()
 				log.Printf("Connection to PCAP-over-IP endpoint %q established (using linkType %s and snaplen %d)\n", endpoint.Address, lt.String(), sl)
 
+				endpoint.infoLock.Lock()
 				endpoint.LastConnected = time.Now().UnixNano()
+				endpoint.infoLock.Unlock()
 				for {
 					data, ci, err := handle.ReadPacketData()
 					if err != nil {
@@ -2287,12 +2292,16 @@ func (mgr *Manager) newPcapOverIPEndpoint(ctx context.Context, address string) *
 						return
 					}
 					mgr.pcapOverIPPackets <- pcapOverIPPacket{lt, data, ci}
+					endpoint.infoLock.Lock()
 					endpoint.ReceivedPackets++
+					endpoint.infoLock.Unlock()
 				}
 			}()
+			endpoint.infoLock.Lock()
 			if endpoint.LastDisconnected <= endpoint.LastConnected {
 				endpoint.LastDisconnected = time.Now().UnixNano()
 			}
+			endpoint.infoLock.Unlock()
 			select {
 			case <-ctx.Done():
 				return
@@ -2303,12 +2312,19 @@ func (mgr *Manager) newPcapOverIPEndpoint(ctx context.Context, address string) *
 	return endpoint
 }
 
+// info returns a consistent copy of the endpoint's counters.
+func (e *pcapOverIPEndpoint) info() PcapOverIPEndpointInfo {
+	e.infoLock.Lock()
+	defer e.infoLock.Unlock()
+	return e.PcapOverIPEndpointInfo
+}
+
 func (mgr *Manager) ListPcapOverIPEndpoints() []PcapOverIPEndpointInfo {
 	c := make(chan []PcapOverIPEndpointInfo)
 	mgr.jobs <- func() {
 		endpoints := make([]PcapOverIPEndpointInfo, 0, len(mgr.pcapOverIPEndpoints))
 		for _, e := range mgr.pcapOverIPEndpoints {
-			endpoints = append(endpoints, e.PcapOverIPEndpointInfo)
+			endpoints = append(endpoints, e.info())
 		}
 		c <- endpoints
 		close(c)
@@ -2331,7 +2347,7 @@ func (mgr *Manager) AddPcapOverIPEndpoint(address string) error {
 			mgr.pcapOverIPEndpoints = append(mgr.pcapOverIPEndpoints, mgr.newPcapOverIPEndpoint(context.Background(), address))
 			endpoints := make([]PcapOverIPEndpointInfo, 0, len(mgr.pcapOverIPEndpoints))
 			for _, e := range mgr.pcapOverIPEndpoints {
-				endpoints = append(endpoints, e.PcapOverIPEndpointInfo)
+				endpoints = append(endpoints, e.info())
 			}
 			mgr.event(Event{
 				Type:                "pcapOverIPEndpointsUpdated",
@@ -2359,7 +2375,7 @@ func (mgr *Manager) DelPcapOverIPEndpoint(address string) error {
 			mgr.pcapOverIPEndpoints = slices.Delete(mgr.pcapOverIPEndpoints, toDelete, toDelete+1)
 			endpoints := make([]PcapOverIPEndpointInfo, 0, len(mgr.pcapOverIPEndpoints))
 			for _, e := range mgr.pcapOverIPEndpoints {
-				endpoints = append(endpoints, e.PcapOverIPEndpointInfo)
+				endpoints = append(endpoints, e.info())
 			}
 			mgr.event(Event{
 				Type:                "pcapOverIPEndpointsUpdated",
